@@ -8,11 +8,12 @@ from vmc.oracles import scene as sc
 FORMATS = ["glyf_colr_1", "glyf", "glyf_colr_0", "cff_colr_0", "cff_colr_1", "cff2_colr_0", "cff2_colr_1",
            "picosvg", "picosvgz", "untouchedsvg", "untouchedsvgz", "cbdt", "sbix"]
 KEEP = ("vb_origin", "vb_size", "vb_aspect", "metrics", "width", "user", "tol", "clipq", "keep", "outline", "stack", "place",
-        "donor_paint", "copy_paint", "grp", "seqlen", "nglyphs", "where", "lin_vec", "rad_geom", "twin", "shared_grad")
+        "donor_paint", "copy_paint", "grp", "seqlen", "nglyphs", "where", "lin_vec", "rad_geom", "twin", "shared_grad", "grad_twice")
 DIMS = {"fmt": FORMATS}
 DIMS.update({k: scenes.DIMS[k] for k in KEEP})
 DIMS["pretty"] = [False, True]
 DIMS["bitmap_h"] = [128, 32, 127]
+DIMS["ext"] = ["usual", "other"]  # the outline flavour follows the output file's extension, not the colour format
 FULL = dict(scenes.DIMS)
 FULL.update(DIMS)
 K = {"quick": 2, "thorough": 2}
@@ -41,7 +42,7 @@ def build(a):
     glyphs, over = scenes.mk(a)
     fmt = a["fmt"]
     over["pretty_print"] = a["pretty"]
-    over["output_file"] = "x.otf" if fmt.startswith("cff") else "x.ttf"
+    over["output_file"] = "x.otf" if fmt.startswith("cff") != (a.get("ext") == "other") else "x.ttf"
     if fmt in ("cbdt", "sbix"):
         h = a["bitmap_h"]
         over["bitmap_resolution"] = h
@@ -118,6 +119,10 @@ def execute(dev):
         cfg = inproc.base_config(**over)
         if kind in common.ACCEPTED_ERRORS and (common.error_predicted(glyphs, cfg) or a["fmt"] in ("cbdt", "sbix")):
             return [{"status": "rejected", "clause": "C07.build", "fp": f"rejected:{a['fmt']}:{kind}"}]
+        if a["fmt"].startswith("picosvg") and a.get("ext") == "other" and "glyph names need to be stable" in str(e):
+            # picosvg into a CFF-flavoured file is refused (the OT-SVG glyph reshuffle needs a post table with names):
+            # nothing is emitted, and the property speaks about emitted fonts only
+            return [{"status": "rejected", "clause": "C07.build", "fp": f"rejected:{a['fmt']}:otf-unsupported"}]
         import traceback
         return [bad("C07.build", f"{kind}: {e} :: {traceback.format_exc()[-300:]}")]
     problems = structure.check(data, want_names=a["keep"])
